@@ -542,6 +542,7 @@ Definition load (g : grid) (first_line : list label) (lines : list rawrec) (allo
   end.
 
 (* --------------------------------- all outcomes over all tapes (enumeration) *)
+(* (a neighbour listed twice is followed once: the set of outcomes is the same) *)
 
 Fixpoint walk_all_loop (fuel : nat) (net : network) (start : cell) (jump : bool)
          (nd : node) (visited : list node) (d : Q) : list (result cell) :=
@@ -561,7 +562,7 @@ Fixpoint walk_all_loop (fuel : nat) (net : network) (start : cell) (jump : bool)
             if Qlt_bool (v_cost v) d then
               walk_all_loop f net start jump nx (zset_insert nd visited) (Qred (d - v_cost v)%Q)
             else [stop_cell v d jump]
-          end) cands
+          end) (nodup Z.eq_dec cands)
       end
     else [Err InvalidArgument]
   end.
